@@ -97,6 +97,7 @@ def parseLCPOptionsLoop (data : Bytes) (off : Nat) (acc : List LCPOption) (n : N
     else do
       let d ← if l8.toNat > 2 then slice data (off + 2) (off + l8.toNat) else pure []
       parseLCPOptionsLoop data (off + l8.toNat) (⟨t, d⟩ :: acc) (n + 1)
+  else if off ≠ data.length then pure (none, n)          -- a stray byte after the last option (commit b61c599)
   else pure (some acc.reverse, n)
 termination_by data.length - off
 decreasing_by omega
